@@ -339,7 +339,7 @@ def gen_schedule(ch):
                "p_coarse": ch.choice([0.3, 0.6, 1.0]), "main_scale": 0.0}
     else:
         main = {"prio": "rand", "prio_main_high": "high", "prio_main_low": "low"}[shape]
-        pol = {"policy": "prio", "seed": seed, "q_line": ch.choice([0.0, 0.001, 0.005, 0.02]),
+        pol = {"policy": "prio", "seed": seed, "q_line": ch.choice([0.0, 0.001, 0.005, 0.02, 0.05]),
                "q_coarse": ch.choice([0.0, 0.1, 0.3]), "main": main}
     sched = {"workers": workers, "policy": pol, "trace_lines": True}
     if ch.coin(0.15):
